@@ -1,6 +1,16 @@
+#[cfg(not(feature = "verif-hooks"))]
 use std::{
     borrow::Borrow,
     sync::{Arc, RwLock, mpsc},
+};
+// Verification hook: take the channel from the controlled runtime so that the
+// blocking `recv` is a scheduling point the model checker can see.
+#[cfg(feature = "verif-hooks")]
+use shuttle::sync::mpsc;
+#[cfg(feature = "verif-hooks")]
+use std::{
+    borrow::Borrow,
+    sync::{Arc, RwLock},
 };
 
 use crate::{
